@@ -869,6 +869,8 @@ class Sim:
         n = len(end.inflight)
         if n <= 1 or end.link.mode != "stream":
             return 1
+        # one read hands a protocol at most 64 KiB (Twisted's bufferSize)
+        n = min(n, 65536)
         mode = self.chunk_mode
         if end.link.chunker is not None:
             return max(1, min(n, end.link.chunker(end, n, self.tape)))
